@@ -24,6 +24,8 @@ func newMachine(part string, nk, nb, rep int) machine {
 		return newOCWorld(nk, nb, rep)
 	case "cp":
 		return newCPWorld(rep)
+	case "ocm":
+		return newOCMWorld(rep)
 	}
 	fmt.Fprintln(os.Stderr, "unknown part", part)
 	os.Exit(3)
